@@ -19,6 +19,10 @@
 #include "rng.h"
 #include <string.h>
 #include <stdio.h>
+#include <sys/mman.h>
+#include <unistd.h>
+#include <hwloc/shmem.h>
+#include <sys/syscall.h>
 #include <stdarg.h>
 #include <errno.h>
 
@@ -192,6 +196,49 @@ static void exec_line(const char *bare) {
       hwloc_topology_destroy(topo); topo = n2; dupped = 1;
       ann_live(); fprintf(fout, "ok\n");
     }
+  }
+  else if (!strcmp(op, "shm") && nt == 1) {
+    /* shared-memory write + adopt with whatever stale caches the history left (no query in between); the adopted topology must list
+     * the structures the original lists afterwards (write refreshes the original), over its OWN objects */
+    size_t len = 0; const char *res = "ok";
+    int fd = (int) syscall(SYS_memfd_create, "verif-dist-shm", 0);      /* an anonymous file: nothing on disk */
+    if (fd < 0 || hwloc_shmem_topology_get_length(topo, &len, 0) < 0) res = "shm-setup-failed";
+    else {
+      void *probe = mmap(NULL, len + (1UL << 21), PROT_NONE, MAP_PRIVATE | MAP_ANONYMOUS, -1, 0);
+      if (probe == MAP_FAILED || ftruncate(fd, (off_t) len) < 0) res = "shm-setup-failed";
+      else {
+        munmap(probe, len + (1UL << 21));
+        hwloc_topology_t ad = NULL;
+        if (hwloc_shmem_topology_write(topo, fd, 0, probe, len, 0) < 0) res = "shm-write-failed";
+        else if (hwloc_shmem_topology_adopt(&ad, fd, 0, probe, len, 0) < 0) res = "shm-adopt-failed";
+        else {
+          unsigned n1 = 0, n2 = 0; hwloc_distances_get(topo, &n1, NULL, 0, 0); hwloc_distances_get(ad, &n2, NULL, 0, 0);
+          if (n1 != n2) res = "shm-differs:count";
+          else if (n1) {
+            struct hwloc_distances_s **d1 = calloc(n1, sizeof *d1), **d2 = calloc(n1, sizeof *d2); unsigned g1 = n1, g2 = n1;
+            hwloc_distances_get(topo, &g1, d1, 0, 0); hwloc_distances_get(ad, &g2, d2, 0, 0);
+            for (unsigned i = 0; i < n1 && !strcmp(res, "ok"); i++) {
+              const char *a = hwloc_distances_get_name(topo, d1[i]), *b = hwloc_distances_get_name(ad, d2[i]);
+              if ((a == NULL) != (b == NULL) || (a && strcmp(a, b))) res = "shm-differs:name";
+              else if (d1[i]->kind != d2[i]->kind || d1[i]->nbobjs != d2[i]->nbobjs) res = "shm-differs:kind-or-nbobjs";
+              else {
+                for (unsigned j = 0; j < d1[i]->nbobjs; j++) {
+                  hwloc_obj_t x = d1[i]->objs[j], y = d2[i]->objs[j];
+                  if (!y || x->type != y->type || x->logical_index != y->logical_index || x->gp_index != y->gp_index) res = "shm-differs:objects";
+                  else if (hwloc_get_obj_by_depth(ad, y->depth, y->logical_index) != y) res = "shm-differs:object-not-of-the-adopted-topology";
+                }
+                if (memcmp(d1[i]->values, d2[i]->values, sizeof(hwloc_uint64_t) * d1[i]->nbobjs * d1[i]->nbobjs)) res = "shm-differs:values";
+              }
+            }
+            for (unsigned i = 0; i < n1; i++) { if (d1[i]) hwloc_distances_release(topo, d1[i]); if (d2[i]) hwloc_distances_release(ad, d2[i]); }
+            free(d1); free(d2);
+          }
+          hwloc_topology_destroy(ad);
+        }
+      }
+    }
+    if (fd >= 0) close(fd);
+    fprintf(fout, "%s\n", res);
   }
   else if (!strcmp(op, "xml") && nt == 1) {
     char *buf = NULL; int len = 0; hwloc_topology_t n2 = NULL; int ok = 0;
@@ -476,7 +523,8 @@ static void gen_one(void) {
     emit("restrict %c %lx %lu", mode, mask & 0xffffffffUL, flags); bump("restrict");
   }
   else if (r < 968) { emit("refresh"); bump("refresh"); }
-  else if (r < 980) { emit("dup"); bump("dup"); }
+  else if (r < 965) { emit("dup"); bump("dup"); }
+  else if (r < 980) { emit("shm"); bump("shm"); }
   else { emit("xml"); bump("xml"); }
 }
 
